@@ -147,6 +147,11 @@ structure DState where
   lowers : List (Bytes × Bytes) := []
   folds : List ((Bytes × Bytes) × Bool) := []
   snaps : List (String × Store) := []
+  /-- the open multi-message transaction, if any (`Model/Batch.lean`: `world` is then its branch) -/
+  pending : Option Pending := none
+
+def DState.chain (s : DState) : Chain := { world := s.world, pending := s.pending }
+def DState.withChain (s : DState) (c : Chain) : DState := { s with world := c.world, pending := c.pending }
 
 def missMark : Bytes := "ORACLEMISS".toUTF8.data.toList
 
@@ -321,13 +326,17 @@ def step (s : DState) (line : String) : DState × String :=
             | .replaceDepositForBurn _ msg att _ _ => ecrMissing ext ecr msg att
             | _ => false
           if miss then (s, "oracle-miss") else
-          let (w, r) := deliver ext s.cfg s.world (parseFaults (kv.get "faults")) m
+          -- through the transaction machine of Model/Batch.lean (`Chain.step`): outside an open transaction this is
+          -- `deliver`; inside one the message runs on the transaction's branch and a failure dooms the transaction
+          let faults := parseFaults (kv.get "faults")
+          let (_, r) := deliver ext s.cfg s.world faults m
+          let s' := if kind == "sim" then s else s.withChain (s.chain.step ext s.cfg (.msg faults m)).1
           let evs := joinOr "|" (r.events.map showEvent)
           let deps := joinOr "|" (r.deps.map showDep)
           let wr := joinOr "," (r.writes.map (fun w => hexStr w.1))
           -- `sim`: the same computation on a branch that is thrown away (gas simulation, CheckTx, an earlier message of a
           -- transaction that fails later): the world is left exactly as it was
-          ((if kind == "sim" then s else { s with world := w }),
+          (s',
            "out=" ++ showFail r.fail ++ " resp=" ++ showResp r.resp ++ " events=" ++ evs ++ " deps=" ++ deps ++ " writes=" ++ wr
              ++ " doc=" ++ joinOr "," ((Spec.documented ext m).map hexStr))
       | [] => (s, "bad-op")
@@ -393,6 +402,12 @@ def step (s : DState) (line : String) : DState × String :=
         | "tokenPadded" => (match (hexDecodeStrict0x a).bind leftPad32 with | some b => hexStr b | none => "ERR")
         | _ => "?"
       (s, "out=ok r=" ++ r)
+    | "begin" =>
+      let (c, o) := s.chain.step ext s.cfg .begin_
+      (s.withChain c, match o with | .opened => "out=ok" | _ => "out=ok open=1")
+    | "end" =>
+      let (c, o) := s.chain.step ext s.cfg .end_
+      (s.withChain c, match o with | .committed => "out=committed" | .discarded => "out=discarded" | _ => "out=none")
     | "dump" =>
       (s, s!"store={showStore s.world.store} {showLedger s.world.ledger}")
     | "snap" => ({ s with snaps := (kv.get "id", s.world.store) :: s.snaps }, "out=ok")
